@@ -20,7 +20,7 @@ LabV(ve, n) ==
 LabC(c, n) == IF IsNone(c) THEN [v |-> c, n |-> n] ELSE [v |-> [c EXCEPT !.id = n], n |-> n + 1]
 LabSimple(s, n) ==   \* simple statements, initialisers and post statements
   IF IsNone(s) THEN [v |-> s, n |-> n]
-  ELSE CASE s.k \in {"eff", "passign"} -> [v |-> [s EXCEPT !.id = n], n |-> n + 1]
+  ELSE CASE s.k \in {"eff", "passign", "effkv", "effkk"} -> [v |-> [s EXCEPT !.id = n], n |-> n + 1]
          [] s.k = "yield" -> LET r == LabV(s.v, n) IN [v |-> [s EXCEPT !.v = r.v], n |-> r.n]
          [] s.k = "yfrom" -> LET r == LabV(s.arg, n) IN [v |-> [s EXCEPT !.arg = r.v], n |-> r.n]
          [] OTHER -> [v |-> s, n |-> n]
@@ -38,6 +38,7 @@ LabS(s, n) ==
     [] s.k = "switch" -> LET c == LabC(s.c, n) cs == LabCases(s.cases, c.n) IN
                      [v |-> [s EXCEPT !.c = c.v, !.cases = cs.v], n |-> cs.n]
     [] s.k = "block" -> LET b == LabB(s.body, n) IN [v |-> [s EXCEPT !.body = b.v], n |-> b.n]
+    [] s.k = "range" -> LET b == LabB(s.body, n + 1) IN [v |-> [s EXCEPT !.id = n, !.body = b.v], n |-> b.n]
     [] s.k = "for" -> LET i == LabSimple(s.init, n) c == LabC(s.c, i.n) p == LabSimple(s.post, c.n) b == LabB(s.body, p.n) IN
                      [v |-> [s EXCEPT !.init = i.v, !.c = c.v, !.post = p.v, !.body = b.v], n |-> b.n]
     [] OTHER -> LabSimple(s, n)
@@ -52,6 +53,7 @@ Label(prog) == LabB(prog, 1).v
 \*   ifinits : set of `if`/`switch` initialisers (None | def)
 \*   kinds   : subset of {"if","ifelse","switch","switchd","tswitch","block","for"}
 \*   jumps   : subset of {"return","break","continue"}
+\*   ranges  : (only with kind "range") set of range-loop headers
 \* Size = number of statements (initialisers, conditions and posts are free).
 \* Contexts decide which jumps are legal: top | loop | sw | loopsw.
 Ctxs == {"top", "loop", "sw", "loopsw"}
@@ -85,6 +87,9 @@ Composite(A, n, ctx, B(_, _)) ==
         THEN UNION {{Switch(None, "notag", <<Case("t", a), Case("d", d)>>) : a \in B(j, SwCtx(ctx)), d \in B(n - 1 - j, SwCtx(ctx))} : j \in 0..(n - 1)}
         ELSE {})
   \cup (IF "block" \in A.kinds THEN {[k |-> "block", body |-> b] : b \in B(n - 1, ctx)} ELSE {})
+  \cup (IF "range" \in A.kinds     \* A.ranges: the set of range headers (records without body)
+        THEN {[h EXCEPT !.body = b] : h \in A.ranges, b \in B(n - 1, "loop")}
+        ELSE {})
   \cup (IF "for" \in A.kinds
         THEN {f \in {[k |-> "for", init |-> i, c |-> cc, post |-> p, body |-> b] : i \in A.inits, cc \in A.conds, p \in A.posts, b \in B(n - 1, "loop")}
                  : Productive(f.c, f.body)}
